@@ -47,7 +47,7 @@ def o1(W, ob):
              'send_input_ack queues an InputAck on every path', 'send_input_ack can return without queuing an InputAck (e.g. suppressing a "repeated" ack): after one lost ack '
              'the sender is never told again what was received', where(a))
     acks_ = [s for f2, s in W.constructions('InputAck') if f2 is a]
-    okv = len(acks_) == 1 and 'last_recv_frame(' in key(W.ctx(a).expr_operand(acks_[0].rv.ops[0]))
+    okv = len(acks_) == 1 and key(W.ctx(a).expr_operand(acks_[0].rv.ops[0])) == 'UdpProtocol::last_recv_frame(self)'   # exactly: not a function of it
     ob.check(okv, 'send_input_ack|acks-last-received', 'the ack carries last_recv_frame()', 'the InputAck does not carry last_recv_frame()', where(a))
     q = W.fn(UDP + '::queue_message')
     cxq = W.ctx(q)
@@ -265,6 +265,8 @@ from . import initial
 
 from . import removals
 
+from . import mustcall
+
 OBLIGATIONS = [
     ('C05.O1', 'every accepted input packet is acknowledged', 'From the end of the shape checks every path to a normal return '
      'that is not a decoder rejection passes through send_input_ack -- including the path on which the decode reference is '
@@ -285,4 +287,5 @@ OBLIGATIONS = [
     ('C05.O7', 'a spectator catching up after an outage consumes one frame per fetched frame (= C02.O8)', 'host->spectator links are part of this property: after a burst the spectator catches up several frames per call; each AdvanceFrame it emits carries the inputs of the next frame and the frame counter moves by exactly one per fetched frame, after the fetch succeeded. See C02.O8 / C01.O3.', c02.o8),
     ('C05.I', 'initial state', 'every constructor gives the fields this property\'s rules interpret (NULL_FRAME = none / nothing yet, 0 = first frame, latches open, typestate start) the value listed in tables/initial_state.json; every field compared with NULL_FRAME anywhere is listed; see rules/initial.py', initial.rule_for('C05')),
     ('C05.R', 'who may remove', 'every call that takes elements out of a collection this property\'s rules rely on (keyed removal from a map, or bulk / positional removal) is one of the reviewed sites in tables/removals.json; a lookup turned into a removal, a second prune, a clear on another path is reported; see rules/removals.py', removals.rule_for('C05')),
+    ('C05.M', 'must-call floor', 'the calls listed for this property in tables/must_call.json are made on every path from the entry of their function to a normal return (interprocedural must-call): a new early return, fast path or extra condition in front of one of them is reported; see rules/mustcall.py', mustcall.rule_for('C05')),
 ]
